@@ -268,7 +268,7 @@ func (p *plan) expand(c chunk, yield func(in input)) {
 			}
 			fixed := applyEdits(s.B, fs, map[int][]byte{c.A: r}, true)
 			in := input{B: fixed, Tag: fmt.Sprintf("field:%s:%d(%s@%d)=%s:fixup", s.Name, c.A, f.Kind, f.Off, devNames[v]), ArgSets: 3, Field: c.A, Val: v, Fixup: true}
-			if v == 8 {
+			if legalPadding(f, v) {
 				// an over-long (but within the width limit) LEB with consistent sizes is still a valid module
 				in.Valid, in.Req, in.IfSeed, in.Ref = true, s.Req, true, s.B
 			}
@@ -282,13 +282,13 @@ func (p *plan) expand(c chunk, yield func(in input)) {
 		s := p.seeds[c.Seed]
 		fs := p.fields(c.Seed)
 		i := c.A
-		for vi := 0; vi < nDevValues; vi++ {
+		for vi := 0; vi < nPairValues; vi++ {
 			ri := devBytes(s.B, fs[i], vi)
 			if ri == nil || p.crash[crashKey(c.Seed, i, vi)] {
 				continue
 			}
 			for j := i + 1; j < len(fs); j++ {
-				for vj := 0; vj < nDevValues; vj++ {
+				for vj := 0; vj < nPairValues; vj++ {
 					rj := devBytes(s.B, fs[j], vj)
 					if rj == nil || p.crash[crashKey(c.Seed, j, vj)] {
 						continue
